@@ -107,6 +107,18 @@ namespace sim
             p.site_mask = READER_SITE | USER_SITES;
          }
       }
+      else if( check == "C05" && sub == 4 && index % 16 == 4 ) {
+         // must_if control over the recording control (fixed grammar, stock memory inputs)
+         j.mode = MODE_IO;
+         j.set = static_cast< SetId >( r.chance( 1, 2 ) ? IO_LAZY : IO_STRING );
+         Case& c = j.c;
+         c.prog = IO_PROG_MUSTIF;
+         c.vetoseed = r.next();
+         c.input = gen_io_input( mix64( s, 0x696f ), IO_PROG_MUSTIF, int( j.set ) );
+         c.maximum = static_cast< std::uint32_t >( c.input.size() ) + 64;
+         j.with_faults = false;
+         return j;
+      }
       else if( check == "C05" ) {
          p.focus = r.chance( 5, 6 ) ? FOCUS_EXC : FOCUS_GENERAL;
          if( sub != 0 && sub != 4 ) {
